@@ -333,7 +333,7 @@ def _mk(preloaded, events, probe=True):
 def all_events(thorough=False, reduced=False):
     if reduced:     # deeper histories on the P2PCD-relevant core of the alphabet
         return [("send", "S1", "CAM"), ("send", "S1", "GEN"), ("send", "S2", "CAM"), ("send", "S3", "CAM"),
-                ("adv", 0.4), ("adv", 1.1), ("join",), ("ask_ca",)]
+                ("adv", 0.4), ("adv", 1.1), ("join",)]      # (the CA-request event stays in the full alphabet only)
     evs = [("send", s, k) for s in NAMES for k in KINDS[s]]
     evs += [("adv", 0.4), ("adv", 1.1), ("join",), ("ask_ca",)]
     return evs
